@@ -143,7 +143,7 @@ theorem pick_keys (fields : List FieldDef) (enc : List (String × JVal)) :
   | nil => simp [pick]
   | cons f fs ih =>
     simp only [pick, List.filterMap_cons] at ih ⊢
-    cases h : lookupW f.name enc <;> simp [h, List.filter_cons, ih]
+    cases h : lookupW f.name enc <;> simp [h, ih]
 
 /-- a slot that is set to something other than None -/
 def slotSet (name : String) (slots : List (String × PyVal)) : Bool :=
